@@ -87,7 +87,7 @@ func settable(v reflect.Value, i int) reflect.Value {
 
 type genStats struct {
 	Ifaces, NilIfaces, NilPtrs, Maps, MapEntries, NegInts, BigInts, Times, Nodes int
-	Refusable                                                                  string // non-empty: the value contains something the encoder documents it cannot encode
+	Refusable                                                                    string // non-empty: the value contains something the encoder documents it cannot encode
 }
 
 type gen struct {
